@@ -361,7 +361,14 @@ def suite_merge(tier: str, seed: int, mult: int) -> SuiteResult:
                 order.append((crit, tol, thr, n_old, old, n_nom, nom))
         rng.shuffle(order)  # any call order, interleaved across instances
         for crit, tol, thr, n_old, old, n_nom, nom in order:
-            fn = fns.setdefault((crit, tol), get_merge_accept_fn(crit, tol))
+            if rng.random() < 0.5:
+                fn = fns.setdefault((crit, tol), get_merge_accept_fn(crit, tol))
+            else:
+                # one long-lived object per criterion whose tolerance is re-assigned in place, as
+                # BitBirch.set_merge(tolerance=...) and the tolerance setter do
+                fn = fns.setdefault((crit, "shared"), get_merge_accept_fn(crit, tol))
+                if hasattr(fn, "tolerance"):
+                    fn.tolerance = tol
             new_n = n_old + n_nom
             o = np.asarray(old, dtype=min_safe_uint(n_old))
             m = np.asarray(nom, dtype=min_safe_uint(n_nom))
